@@ -11,6 +11,7 @@ import (
 	"testing"
 	"time"
 
+	"github.com/mdlayher/corerad/internal/netstate"
 	"github.com/mdlayher/corerad/verifrt/ev"
 	"github.com/mdlayher/corerad/verifrt/sdnotify"
 	"github.com/mdlayher/corerad/verifrt/vsched"
@@ -39,8 +40,8 @@ func c08Sig(s string) os.Signal {
 func c08Cases() []c08Case {
 	var cs []c08Case
 	for _, sig := range []string{"TERM", "HUP", "INT"} {
-		for _, sc := range []string{"serve-e2e", "idle", "pending-delay", "rs-at-stop", "periodic-due", "armed-write-2", "armed-write-3-unicast", "armed-fwd-3"} {
-			if sig == "INT" && sc != "armed-write-3-unicast" && sc != "idle" && sc != "serve-e2e" {
+		for _, sc := range []string{"serve-e2e", "after-reinit", "idle", "pending-delay", "rs-at-stop", "periodic-due", "armed-write-2", "armed-write-3-unicast", "armed-fwd-3"} {
+			if sig == "INT" && sc != "armed-write-3-unicast" && sc != "idle" && sc != "serve-e2e" && sc != "after-reinit" {
 				continue
 			}
 			cs = append(cs, c08Case{Name: sc + "/" + sig, Sig: sig, Script: sc, Latency: strings.HasPrefix(sc, "armed")})
@@ -56,7 +57,7 @@ func c08Scenario(c c08Case) *vsched.Scenario {
 		Name:    c.Name,
 		Horizon: 5 * time.Minute,
 		Setup: func(x *vsched.Exec) {
-			a = newAdvWorld(staticCfg("eth0", 4*time.Second, 4*time.Second), true, false)
+			a = newAdvWorld(staticCfg("eth0", 4*time.Second, 4*time.Second), true, c.Script == "after-reinit")
 			a.latency = c.Latency
 			stop := func() {
 				a.term.set(c08Sig(c.Sig))
@@ -127,6 +128,15 @@ func c08Scenario(c c08Case) *vsched.Scenario {
 				case "idle":
 					vsched.Sleep(time.Second)
 					vsched.Mark()
+					stop()
+				case "after-reinit":
+					// The interface was re-initialised after a link change; a solicitation
+					// is being answered on the new connection when the stop comes.
+					vsched.Sleep(2 * time.Second)
+					vsched.Send("harness:link-change", a.watchC, netstate.LinkDown)
+					vsched.Sleep(3500 * time.Millisecond)
+					vsched.Mark()
+					a.inject(rsFrom("fe80::5", true))
 					stop()
 				case "pending-delay":
 					// A unicast response is held in its random delay when the stop comes.
@@ -225,6 +235,18 @@ func c08Check(c c08Case, x *vsched.Exec, a *advWorld, stopAt time.Duration) (out
 			bad("C08:io-after-close", "%s", e.Detail)
 		}
 	}
+	// The final RA goes out on the connection that is current at the stop.
+	if terminal && len(finals) == 1 {
+		last := 0
+		for _, e := range x.Log {
+			if e.Kind == "conn-open" {
+				fmt.Sscanf(e.Detail, "conn=%d", &last)
+			}
+		}
+		if !strings.Contains(x.Log[finals[0]].Detail, fmt.Sprintf("conn=%d ", last)) {
+			bad("C08:final-ra-on-old-connection", "final RA %q was not sent on the current connection %d", x.Log[finals[0]].Detail, last)
+		}
+	}
 	// The final RA equals the normal RA except for the lifetime.
 	ws := a.Writes()
 	if terminal && len(finals) == 1 {
@@ -250,7 +272,7 @@ func c08Check(c c08Case, x *vsched.Exec, a *advWorld, stopAt time.Duration) (out
 func TestVerifC08(t *testing.T) {
 	r := ev.Begin("C08", "sched")
 	defer r.End(t)
-	r.Rule = "executions = all goroutine schedules within the deviation bound of the instrumented real Advertiser (min=max=4s, real terminator) with a stop thread (set signal, cancel) placed at: idle; a unicast response pending in its random delay; a solicitation arriving at the stop instant; a rate-limited periodic RA due at the stop instant; armed to become runnable exactly when the 2nd WriteTo / the unicast response's WriteTo / the 3rd forwarding read begins (with transmit latency modelled as an extra scheduling point inside WriteTo); x SIGTERM, SIGHUP (SIGINT for two); random delay draws are environment choices {0, mid, max}; oracle on the ordered observation log: Run returns nil within 1s, exactly one zero-lifetime multicast RA iff terminating, equal to the normal RA otherwise, no transmission begins after it, no I/O after Run returned or on a closed connection"
+	r.Rule = "executions = all goroutine schedules within the deviation bound of the instrumented real Advertiser (min=max=4s, real terminator) with a stop thread (set signal, cancel) placed at: the real Server.Serve with the real signal task; a solicitation arriving on the connection opened by a re-initialisation after a link change; idle; a unicast response pending in its random delay; a solicitation arriving at the stop instant; a rate-limited periodic RA due at the stop instant; armed to become runnable exactly when the 2nd WriteTo / the unicast response's WriteTo / the 3rd forwarding read begins (with transmit latency modelled as an extra scheduling point inside WriteTo); x SIGTERM, SIGHUP (SIGINT for two); random delay draws are environment choices {0, mid, max}; oracle on the ordered observation log: Run returns nil within 1s, exactly one zero-lifetime multicast RA iff terminating, equal to the normal RA otherwise, no transmission begins after it, no I/O after Run returned or on a closed connection"
 	name := func(c c08Case) string { return c.Name }
 	if !r.Thorough() {
 		exploreCases(t, r, c08Cases(), name, c08Scenario, exploreOpts{Bound: 1})
